@@ -190,6 +190,7 @@ struct Sim {
   void *main_fake = nullptr;
   const void *main_bottom = nullptr;
   size_t main_size = 0;
+  bool main_known = false;
 #endif
   std::function< void(int) > region_fn;
   void (*gomp_fn)(void *) = nullptr;
@@ -238,7 +239,18 @@ char *get_stack() {
 
 void fiber_main() {
 #ifdef DETSIM_ASAN
-  __sanitizer_finish_switch_fiber(nullptr, &G.main_bottom, &G.main_size);
+  {
+    // the stack we came from is the main stack only for the first fiber of
+    // a region; later fibers are started from another fiber
+    const void *from_bottom = nullptr;
+    size_t from_size = 0;
+    __sanitizer_finish_switch_fiber(nullptr, &from_bottom, &from_size);
+    if (!G.main_known) {
+      G.main_bottom = from_bottom;
+      G.main_size = from_size;
+      G.main_known = true;
+    }
+  }
 #endif
   const int me = G.cur;
   if (G.gomp_fn)
@@ -558,6 +570,7 @@ void run_region(int n) {
   } else {
     G.cur = first;
 #ifdef DETSIM_ASAN
+    G.main_known = false;
     __sanitizer_start_switch_fiber(&G.main_fake, G.fibers[first].stack,
                                    STACK_SIZE);
 #endif
